@@ -125,6 +125,7 @@ func genC07BGV(c *Ctx) {
 	reps := c.Scale(3, 30)
 	for _, s := range sets {
 		c.c07Embed(s, c.Scale(1, 6))
+		c.c07Intact(s, c.Scale(1, 8))
 		t := s.t
 		rt := s.params.RingT()
 		rq := s.params.RingQ()
